@@ -187,7 +187,9 @@ func Index(v, k any) (any, error) {
 func Getpath(v any, path []any) (any, error) {
 	for _, k := range path {
 		switch v.(type) {
-		case nil, []any, map[string]any:
+		case nil, []any, map[string]any, string:
+			// strings: positions and slices of a string are locations that path(.[i]) / path(.[i:j]) emit, so
+			// getpath must be able to read them back (jq reads string slices back too)
 		default:
 			return nil, ierr("getpath cannot be applied to %s", TypeName(v))
 		}
